@@ -16,6 +16,6 @@ CONSTANTS
 CONSTRAINT Progress
 INVARIANTS
   OrderOk PostStopOnlyGraceful NoOverlap NoStartAfterKill NoHandlerAfterStop
-  OneTerminal StartedOrder DeadMeansClean FailedStartSilent NoChildOfDead
+  OneTerminal StartedOrder DeadMeansClean FailedStartSilent DeadLeavesNothing NoChildOfDead
 POSTCONDITION Accepted
 CHECK_DEADLOCK FALSE
